@@ -118,3 +118,60 @@ func H_C04_visitor() {
 	vAssert(vLiveBlocks() == 0, "every block returned after Close")
 	vReach("c04-visitor-done")
 }
+
+// H_C04_close: user-managed memory; Close() is called while a backup (optionally in delta mode, where StoreToDisk
+// gives up the real snapshot before it scans) is standing inside its item callback on a node of the store. Close
+// must not free the structure under the scan: when the callback resumes, every access of the scan to a freed node
+// or item is a trap. Afterwards everything has been returned exactly once.
+func H_C04_close() {
+	cfg, c := vConfig()
+	if vBound("delta") == 1 {
+		cfg.UseDeltaInterleaving()
+	}
+	DiskBlockSize = vBound("blocksize")
+	db := NewWithConfig(cfg)
+	ws := vWriters(db, 1)
+	n := vBound("items")
+	for i := 0; i < n; i++ {
+		ws[0].Put2(c.item(byte(10+7*i), byte(i+1)))
+	}
+	snap, _ := db.NewSnapshot()
+	dir := vFSDir() + "/c04c"
+	started := make(chan bool, 1)
+	resume := make(chan bool)
+	stopAt := vRange("stopat", 0, 0, n-1)
+	calls := 0
+	cb := func(e *ItemEntry) {
+		if calls == stopAt {
+			started <- true
+			<-resume
+		}
+		calls++
+	}
+	var wg sync.WaitGroup
+	wg.Add(2)
+	go func() {
+		db.StoreToDisk(dir, snap, 1, cb) // owns the snapshot reference; may end with ErrShutdown
+		wg.Done()
+	}()
+	<-started
+	vReach("backup-inside-callback")
+	closed := false
+	go func() {
+		db.Close()
+		closed = true
+		wg.Done()
+	}()
+	// Close gets as far as it can while the backup is parked (it may be polling with time.Sleep for the snapshot
+	// list to drain, so "quiescence" is not reached: a few scheduling rounds are given instead)
+	for i := 0; i < vBound("yields"); i++ {
+		vYield()
+	}
+	if closed {
+		vReach("close-returned-while-backup-parked")
+	}
+	resume <- true
+	wg.Wait()
+	vAssert(vLiveBlocks() == 0, "every block returned exactly once after Close and the backup finished")
+	vReach("c04-close-done")
+}
